@@ -706,12 +706,17 @@ impl StreamsState {
                 let Some(stream) = self.send.get_mut(&id).and_then(|s| s.as_mut()) else {
                     continue;
                 };
+                let was_pending = stream.is_pending();
+                // A FIN sent in 0-RTT has to be repeated as well, also when the stream carried no data
+                if matches!(stream.state, SendState::DataSent { .. }) {
+                    stream.fin_pending = true;
+                }
                 if stream.pending.is_fully_acked() && !stream.fin_pending {
                     // Stream data can't be acked in 0-RTT, so we must not have sent anything on
                     // this stream
                     continue;
                 }
-                if !stream.is_pending() {
+                if !was_pending {
                     self.pending.push_pending(id, stream.priority);
                 }
                 stream.pending.retransmit_all_for_0rtt();
